@@ -49,7 +49,7 @@ func sameJSON(a, b interface{}) bool {
 		return b == nil
 	case float64:
 		y, ok := b.(float64)
-		return ok && x == y
+		return ok && (x == y || (x != x && y != y))
 	case string:
 		y, ok := b.(string)
 		return ok && x == y
@@ -95,6 +95,10 @@ func sameOpaque(a, b interface{}) bool {
 	va, vb := reflect.ValueOf(a), reflect.ValueOf(b)
 	if va.Type() != vb.Type() {
 		return false
+	}
+	if fa, ok := a.(float64); ok {
+		fb := b.(float64)
+		return fa == fb || (fa != fa && fb != fb) // the same NaN leaf is the same value
 	}
 	switch va.Kind() {
 	case reflect.Func, reflect.Chan, reflect.Map, reflect.Ptr, reflect.UnsafePointer:
@@ -519,4 +523,12 @@ func maskOf(values, members []interface{}) (mask uint, ok bool) {
 		}
 	}
 	return mask, true
+}
+
+func isContainer(v interface{}) bool {
+	switch v.(type) {
+	case map[string]interface{}, []interface{}:
+		return true
+	}
+	return false
 }
